@@ -16,15 +16,21 @@
 // model, direct oracles evaluate the property on the implementation's own trace.  A state in which no
 // goroutine is runnable and some have not returned is reported as a deadlock (impl-violation).
 //
-// If the instrumented copy cannot be produced (parv.Available == false) the runner falls back to
-// uncontrolled stress of the unmodified package under the race detector (cmd/parrace) and says so.
+// direct.go holds the oracles that work on the UNMODIFIED package at full speed (key space, key identity, user
+// functions that do not return, items that need each other, large backlogs); they run first, in a child process.
+//
+// If the instrumented copy cannot be produced (parv.Available == false) that is a broken correspondence, not an
+// environment problem: the direct oracles and the race-detector stress of the unmodified package (cmd/parrace)
+// still run, and the run ends with a correspondence finding naming what could not be tied (uninstrumentable).
 package main
 
 import (
+	"encoding/json"
 	"fmt"
 	"os"
 	"os/exec"
 	"path/filepath"
+	"runtime"
 	"sort"
 	"strconv"
 	"strings"
@@ -580,6 +586,11 @@ func workOracles(c workCfg, out *vsync.Outcome) (fs []finding) {
 			break
 		}
 	}
+	if out.Mode == vsync.Coarse {
+		if d := lostWakeup(c, out); d != "" {
+			bad("work/no-lost-wakeup", d)
+		}
+	}
 	if out.Deadlock {
 		bad("work/no-deadlock", fmt.Sprintf("DEADLOCK: no goroutine runnable, threads %v have not returned (Do returned: %v)", out.Blocked, doret))
 		return
@@ -602,6 +613,149 @@ func workOracles(c workCfg, out *vsync.Outcome) (fs []finding) {
 		}
 	}
 	return
+}
+
+// lostWakeup evaluates the model's invariant C09_wakeup_per_item (ParWork.wakeup_ok) on the implementation's own
+// states, after every atomic step of a coarse run: whenever some runner is asleep in Wait (not signalled), the
+// number of queued items -- added, f not yet begun -- is at most the number of runners on their way to the queue
+// (at the head of the loop about to take the lock, or signalled and about to re-acquire it).  A state that breaks it
+// has a queued item nobody is coming for while a runner sleeps: a lost wake-up, whether or not the run then happens
+// to finish serially.  Everything is read off the run itself: the notes of the user function (Add / begin / end)
+// and where the scheduler shim says each goroutine stands.
+func lostWakeup(c workCfg, out *vsync.Outcome) string {
+	inF := map[int]bool{}
+	lastAdd := map[int]int{}
+	ever := map[int]bool{}
+	queued := 0
+	for _, i := range c.inits {
+		if !ever[i] {
+			ever[i] = true
+			queued++
+		}
+	}
+	ni := 0
+	for si, st := range out.Steps {
+		for ni < len(out.Notes) && out.Notes[ni].Step < si {
+			if nt := out.Notes[ni]; strings.HasPrefix(nt.Text, "a:") {
+				lastAdd[nt.T], _ = strconv.Atoi(nt.Text[2:])
+			}
+			ni++
+		}
+		began, ended := false, false
+		for k := ni; k < len(out.Notes) && out.Notes[k].Step == si; k++ {
+			switch nt := out.Notes[k]; {
+			case strings.HasPrefix(nt.Text, "b:"):
+				began = true
+			case strings.HasPrefix(nt.Text, "e:"):
+				ended = true
+			}
+		}
+		switch {
+		case began:
+			queued--
+			inF[st.T] = true
+		case ended:
+			inF[st.T] = false
+		case inF[st.T] && len(st.Ops) > 0 && st.Ops[0].Kind == vsync.OpLock && st.Ops[0].Obj != rendezvousMu:
+			if it, ok := lastAdd[st.T]; ok && !ever[it] { // the critical section of an Add of a new item
+				ever[it] = true
+				queued++
+			}
+		}
+		if st.After == nil {
+			continue
+		}
+		parked, coming := 0, 0
+		for t, b := range st.After {
+			if inF[t] {
+				continue
+			}
+			switch b {
+			case 'p':
+				parked++
+			case 'n', 'L':
+				coming++
+			}
+		}
+		if parked > 0 && queued > coming {
+			return fmt.Sprintf("LOST WAKE-UP after step %d (thread %d): %d item(s) are queued (added, f not begun), %d runner(s) sleep in Wait without having been signalled, and only %d runner(s) are on their way to the queue (at the loop head or signalled); goroutine states %q (L about to lock, p asleep, n signalled, y/. inside f, x returned)",
+				si, st.T, queued, parked, coming, string(st.After))
+		}
+	}
+	return ""
+}
+
+// rendezvousMu: the mutex of the barrier the rendezvous scenario's user function waits on (not part of Work)
+var rendezvousMu *vsync.Mutex
+
+// runWorkRendezvous: item 0 adds items 1..k from inside f, and the calls of f for 1..k do not return before all k
+// of them are in progress (a barrier built from the shim's own Mutex and Cond, so that a hang is seen as a
+// deadlock).  With n >= k runners this must terminate under every schedule: direct oracles only.
+func runWorkRendezvous(k, n int, st vsync.Strategy) (workCfg, *vsync.Outcome) {
+	c := rendezvousCfg(k, n)
+	w := &parv.Work{}
+	items := newItems(len(c.g))
+	w.Add(items.val(0))
+	bm := &vsync.Mutex{}
+	bc := vsync.NewCond(bm)
+	rendezvousMu = bm
+	arrived := 0
+	f := func(item any) {
+		i, ok := items.ids[item]
+		if !ok {
+			i = -1
+		}
+		vsync.Trace("b:" + strconv.Itoa(i))
+		if ok {
+			for _, ch := range c.g[i] {
+				vsync.Trace("a:" + strconv.Itoa(ch))
+				w.Add(items.val(ch))
+			}
+		}
+		if i >= 1 {
+			bm.Lock()
+			arrived++
+			if arrived == k {
+				bc.Broadcast()
+			}
+			for arrived < k {
+				bc.Wait()
+			}
+			bm.Unlock()
+		}
+		vsync.Yield("fe")
+		vsync.Trace("e:" + strconv.Itoa(i))
+	}
+	out := vsync.Run(vsync.Coarse, st, c.stepBound()+6*k+10, func() {
+		w.Do(n, f)
+		vsync.Trace("doret")
+	})
+	rendezvousMu = nil
+	return c, out
+}
+
+func rendezvousCase(k, n int, st vsync.Strategy, src string) bool {
+	c, out := runWorkRendezvous(k, n, st)
+	res.Case(fmt.Sprintf("rendezvous#%d#%d#%s", k, n, dots(chosen(out.Decisions))), true)
+	res.Count("src:" + src)
+	fs := workOracles(c, out)
+	if len(fs) == 0 {
+		return true
+	}
+	// shortest forced prefix of the decisions that still fails the same oracle
+	dec := chosen(out.Decisions)
+	for j := 0; j < len(dec) && j <= 300; j++ {
+		_, o2 := runWorkRendezvous(k, n, &prefixStrat{prefix: dec[:j]})
+		if f2 := workOracles(c, o2); len(f2) > 0 && f2[0].oracle == fs[0].oracle {
+			dec, fs = dec[:j], f2
+			break
+		}
+	}
+	for _, f := range fs {
+		violate(f.oracle, f.detail, map[string]string{"prop": "C09", "cfg": fmt.Sprintf("rendezvous %d %d", k, n), "decisions": dots(dec), "mode": "rendezvous", "source": src,
+			"text": fmt.Sprintf("Work.Do(n=%d) on the controlled scheduler; item 0 adds items 1..%d from inside f; the calls of f for 1..%d each wait until all %d of them are in progress; forced decisions %s, then the default schedule", n, k, k, k, dots(dec))})
+	}
+	return false
 }
 
 // workEvents renders the run at the granularity of the model: events + runnable sets, the schedule as
@@ -942,15 +1096,21 @@ func mainWork() {
 			f()
 			return
 		}
-		w := &parv.Work{}
-		w.Add(1)
 		calls := 0
-		w.Do(1, func(any) { calls++ })
-		second := panics(func() { w.Do(1, func(any) { calls++ }) })
-		zero := panics(func() { (&parv.Work{}).Do(0, func(any) {}) })
+		second, zero := false, false
+		probe := vsync.Run(vsync.Coarse, &prefixStrat{}, 500, func() {
+			w := &parv.Work{}
+			w.Add(1)
+			w.Do(1, func(any) { calls++ })
+			second = panics(func() { w.Do(1, func(any) { calls++ }) })
+			zero = panics(func() { (&parv.Work{}).Do(0, func(any) {}) })
+		})
+		if probe.Deadlock || probe.StepLimit || probe.Panic != "" {
+			noteOnce(fmt.Sprintf("API probe (one item, Do(1), a second Do, Do(0)) did not run to its end: deadlock=%v panic=%q", probe.Deadlock, probe.Panic))
+		}
 		res.Count(fmt.Sprintf("probe:second-Do-panics=%v", second))
 		res.Count(fmt.Sprintf("probe:Do(0)-panics=%v", zero))
-		if calls != 1 {
+		if calls != 1 && !probe.Deadlock && !probe.StepLimit && probe.Panic == "" {
 			violate("work/exactly-once", fmt.Sprintf("sequential probe: one item, Do(1) twice: f called %d times", calls),
 				map[string]string{"prop": "C09", "cfg": "1|-|0", "decisions": "-", "mode": "direct", "text": "w.Add(1); w.Do(1,f); w.Do(1,f) on a single goroutine"})
 		}
@@ -1132,6 +1292,24 @@ func mainWork() {
 			backlogCase(fan, n, r)
 		}
 	}
+	// 4d. rendezvous: sibling items whose calls of f need each other (every one of them must get a runner)
+	nRv := 150
+	if thorough {
+		nRv = 5000
+	}
+rv:
+	for i := 0; i < nRv && !enough(); i++ {
+		k := 2 + i%5
+		for _, n := range []int{k + 1, k, k + 3} {
+			var st vsync.Strategy = &prefixStrat{}
+			if i >= 5 {
+				st = &randStrat{r: r.Fork(), prio: i%2 == 0}
+			}
+			if !rendezvousCase(k, n, st, "rendezvous") {
+				break rv
+			}
+		}
+	}
 	// 5. the same with every shim operation a scheduling point (pre-emption inside critical sections and
 	// between Unlock and the next statement); direct oracles only
 	nFine := 1500
@@ -1274,13 +1452,28 @@ func (c cacheCfg) depStr() string {
 }
 func (c cacheCfg) String() string { return c.progStr() + "|" + dots(c.vals) + "|" + c.depStr() }
 
-// fval: what f_k returns.  The value 0 stands for a nil result (an f may return the nil interface).
+// fval: what f_k returns.  The value 0 stands for a nil result (an f may return the nil interface); the values 1 and
+// 2 for an f that does not return at all: it panics (1) or calls runtime.Goexit (2) after its nested calls.
 func (c cacheCfg) fval(k int) any {
 	if c.vals[k] == 0 {
 		return nil
 	}
 	return c.vals[k]
 }
+func (c cacheCfg) crashes(k int) bool { return c.vals[k] == 1 || c.vals[k] == 2 }
+func (c cacheCfg) anyCrash() bool {
+	for k := range c.vals {
+		if c.crashes(k) {
+			return true
+		}
+	}
+	return false
+}
+
+// fFails is what a crashing f panics with; the goroutine bodies of the harness recover exactly this value (as a
+// caller that survives a failing computation would) and let every other panic through.
+type fFails struct{ k int }
+
 func (c cacheCfg) want(k int) string { return showVal(c.fval(k)) }
 func (c cacheCfg) depsOf(k int) []int {
 	if k < len(c.deps) {
@@ -1402,6 +1595,14 @@ func runCache(c cacheCfg, st vsync.Strategy) *vsync.Outcome {
 				v := ch.Do(d, fOf(d))
 				vsync.Trace(fmt.Sprintf("r:N%d=%s", d, showVal(v)))
 			}
+			if c.crashes(k) {
+				vsync.Yield("fx")
+				vsync.Trace("fx:" + strconv.Itoa(k))
+				if c.vals[k] == 1 {
+					panic(fFails{k})
+				}
+				runtime.Goexit()
+			}
 			vsync.Yield("fe")
 			vsync.Trace("fe:" + strconv.Itoa(k))
 			return c.fval(k)
@@ -1411,6 +1612,13 @@ func runCache(c cacheCfg, st vsync.Strategy) *vsync.Outcome {
 	for i, prog := range c.progs {
 		prog := prog
 		bodies[i] = func() {
+			defer func() {
+				if r := recover(); r != nil {
+					if _, mine := r.(fFails); !mine {
+						panic(r)
+					}
+				}
+			}()
 			for _, cl := range prog {
 				k := cl.k
 				if cl.do {
@@ -1478,9 +1686,22 @@ func hbRaces(out *vsync.Outcome) (races []string) {
 			}
 		case vsync.OpUnlock, vsync.OpWait:
 			release(t, o.Obj, true)
-		case vsync.OpLoadU32:
+		case vsync.OpLoadU32, vsync.OpAtomicLoad:
 			acquire(t, o.Obj)
-		case vsync.OpStoreU32:
+		case vsync.OpStoreU32, vsync.OpAtomicStore:
+			release(t, o.Obj, false)
+		case vsync.OpAtomicRMW:
+			acquire(t, o.Obj)
+			release(t, o.Obj, false)
+		case vsync.OpBlock:
+			acquire(t, o.Obj)
+		case vsync.OpRelease:
+			release(t, o.Obj, false)
+		case vsync.OpMapStore, vsync.OpMapDelete:
+			acquire(t, mapKey{o.Obj, o.Key})
+			release(t, mapKey{o.Obj, o.Key}, false)
+		case vsync.OpMapClear, vsync.OpMapRange:
+			acquire(t, o.Obj)
 			release(t, o.Obj, false)
 		case vsync.OpMapLoad:
 			acquire(t, mapKey{o.Obj, o.Key})
@@ -1530,6 +1751,7 @@ func cacheOracles(c cacheCfg, out *vsync.Outcome) (fs []finding) {
 		return
 	}
 	_, acyclic := c.costs()
+	crashed := false // some invocation of f ended without returning (the configuration says which keys do that)
 	fcalls, fdone := map[int]int{}, map[int]bool{}
 	inGet := map[int]int{}
 	getStart := map[int]int{}
@@ -1546,6 +1768,8 @@ func cacheOracles(c cacheCfg, out *vsync.Outcome) (fs []finding) {
 		case strings.HasPrefix(nt.Text, "fe:"):
 			k, _ := strconv.Atoi(nt.Text[3:])
 			fdone[k] = true
+		case strings.HasPrefix(nt.Text, "fx:"):
+			crashed = true
 		case strings.HasPrefix(nt.Text, "c:G"):
 			inGet[nt.T] = 1
 			getStart[nt.T] = nt.Step
@@ -1558,10 +1782,12 @@ func cacheOracles(c cacheCfg, out *vsync.Outcome) (fs []finding) {
 			if nt.Text[2] == 'N' {
 				what = "nested Do"
 			}
-			if kv[1] != c.want(k) {
+			if kv[1] != c.want(k) && !c.crashes(k) {
 				bad("cache/do-returns-f-value", fmt.Sprintf("thread %d: %s(%d) returned %s, f returns %s", nt.T, what, k, kv[1], c.want(k)))
 			}
-			if !fdone[k] {
+			if c.crashes(k) {
+				bad("cache/do-after-f", fmt.Sprintf("thread %d: %s(%d) returned %s although the one invocation of f for key %d never returns (it %s)", nt.T, what, k, kv[1], k, map[int]string{1: "panics", 2: "calls runtime.Goexit"}[c.vals[k]]))
+			} else if !fdone[k] {
 				bad("cache/do-after-f", fmt.Sprintf("thread %d: %s(%d) returned before the call of f completed", nt.T, what, k))
 			}
 			doReturned[k] = true
@@ -1593,8 +1819,10 @@ func cacheOracles(c cacheCfg, out *vsync.Outcome) (fs []finding) {
 		break
 	}
 	if out.Deadlock {
-		if !acyclic {
-			return // f_k reaching Do(k) again blocks on its own entry mutex: the model says so too
+		if !acyclic || crashed {
+			// f_k reaching Do(k) again blocks on its own entry mutex; a Do for a key whose f did not return blocks
+			// for ever (the entry stays locked: no second invocation).  The model says so too.
+			return
 		}
 		what := ""
 		for _, t := range out.Blocked {
@@ -1608,6 +1836,9 @@ func cacheOracles(c cacheCfg, out *vsync.Outcome) (fs []finding) {
 	if out.StepLimit {
 		bad("cache/terminates", fmt.Sprintf("the run took more than %d steps, the bound proved for the model (C10_schedules_finite: psi of the initial state)", c.stepBound()))
 		return
+	}
+	if crashed {
+		return // the failing goroutine abandoned the rest of its program
 	}
 	// every key some Do asked for, directly or through f's nested calls, was computed exactly once
 	need := map[int]bool{}
@@ -1755,7 +1986,7 @@ func (c cacheCfg) text(sched string) string {
 	if len(c.deps) > 0 {
 		d = fmt.Sprintf(", f_k calls Do on the keys deps[k] = %v", c.deps)
 	}
-	return fmt.Sprintf("goroutine programs %s (D = Do, G = Get, number = key), f values %v (0 = nil)%s; schedule (thread per operation) %s", c.progStr(), c.vals, d, sched)
+	return fmt.Sprintf("goroutine programs %s (D = Do, G = Get, number = key), f values %v (0 = nil, 1 = f panics and the goroutine recovers at its top, 2 = f calls runtime.Goexit)%s; schedule (thread per operation) %s", c.progStr(), c.vals, d, sched)
 }
 
 func oneCache(c cacheCfg, out *vsync.Outcome, src string) bool {
@@ -1897,16 +2128,23 @@ func smallCacheCfgs() []cacheCfg {
 		mk("D0/D0.G1|100.101|1/-"),              // two callers of the outer key
 		mk("D0/D2.G0|100.101.0|1.2/2/-"),        // two levels of nesting, f_2 returns nil (the Coq example)
 		mk("D0|100|0"), mk("D0/D1|100.101|1/0"), // CYCLIC dependencies: Do deadlocks on its own entry mutex (model and code agree)
+		// f does not return (1: panics, 2: runtime.Goexit): exactly one invocation all the same; later Do calls block, Get returns nil
+		mk("D0/D0|1"), mk("D0/D0.G0|2"), mk("D0.G1/G0.D0/D1|1.101"), mk("D0/G0.D1|2.101"),
+		mk("D0/D1.D0|100.1|1/-"), // f_1 fails inside f_0's nested Do(1): both entries stay locked
 	}
 }
 
 func randCacheCfg(r *common.RNG, maxT, maxCalls, maxKeys int) cacheCfg {
 	nk := 1 + r.Intn(maxKeys)
 	c := cacheCfg{}
+	crashy := r.Intn(5) == 0
 	for k := 0; k < nk; k++ {
-		if r.Intn(5) == 0 {
+		switch {
+		case crashy && r.Intn(2) == 0:
+			c.vals = append(c.vals, 1+r.Intn(2)) // f_k panics / calls runtime.Goexit
+		case r.Intn(5) == 0:
 			c.vals = append(c.vals, 0) // f_k returns nil
-		} else {
+		default:
 			c.vals = append(c.vals, 100+k)
 		}
 	}
@@ -2000,7 +2238,7 @@ func mainCache() {
 	if err == nil {
 		for i, a := range ans {
 			f := strings.Fields(a)
-			if len(f) != 2 || !strings.HasPrefix(f[0], "sched=") || f[1] != "idle=true" {
+			if len(f) != 2 || !strings.HasPrefix(f[0], "sched=") || (f[1] != "idle=true" && !(cfgs[i].anyCrash() && f[1] == "idle=false")) {
 				res.Violate(common.Violation{Kind: "correspondence", Oracle: "model-random-walk", Input: map[string]string{"request": reqs[i]}, Model: a, Key: "cacherand:" + reqs[i]})
 				continue
 			}
@@ -2179,6 +2417,18 @@ func usersEvidence(dur time.Duration) {
 // ---------------------------------------------------------------- replay, corpus, main
 
 func replayInput(in map[string]string, src string) {
+	if in["mode"] == "unmodified" {
+		if directChild {
+			replayDirect(in)
+		} else {
+			directInChild(fl.Replay)
+		}
+		return
+	}
+	if !parv.Available {
+		uninstrumentable()
+		return
+	}
 	decs := undots(in["decisions"])
 	if prop == "C09" {
 		c, ok := parseWorkCfg(in["cfg"])
@@ -2186,6 +2436,10 @@ func replayInput(in map[string]string, src string) {
 			var fan, n int
 			if k, _ := fmt.Sscanf(in["cfg"], "backlog %d %d", &fan, &n); k == 2 && fan > 0 && fan <= 100000 && n > 0 {
 				backlogCase(fan, n, nil)
+				return
+			}
+			if k, _ := fmt.Sscanf(in["cfg"], "rendezvous %d %d", &fan, &n); k == 2 && fan > 0 && fan <= 64 && n > 0 && n <= 4096 {
+				rendezvousCase(fan, n, &prefixStrat{prefix: decs}, src)
 				return
 			}
 			if strings.HasPrefix(in["cfg"], "parrace") {
@@ -2244,6 +2498,22 @@ func main() {
 	if fl.Tier == "thorough" {
 		deadline = time.Now().Add(25 * time.Minute)
 	}
+	if out := os.Getenv("VERIF_PAR_DIRECT"); out != "" {
+		// child process: only the direct oracles on the unmodified package (or the replay of one of their findings)
+		directChild = true
+		if fl.Replay != "" {
+			rp, err := common.LoadReplay(fl.Replay)
+			if err != nil {
+				fmt.Fprintln(os.Stderr, err)
+				os.Exit(2)
+			}
+			replayDirect(rp.Violation.Input)
+		} else {
+			res.Notes = directOracles(common.NewRNG(fl.Seed^0x5eed), fl.Tier == "thorough")
+		}
+		res.Write(out)
+		return
+	}
 	var err error
 	mdl, err = common.StartModel(fl.Model)
 	if err != nil {
@@ -2256,9 +2526,33 @@ func main() {
 		what = "cache"
 	}
 
+	if fl.Replay != "" {
+		rp, err := common.LoadReplay(fl.Replay)
+		if err != nil {
+			fmt.Fprintln(os.Stderr, err)
+			os.Exit(2)
+		}
+		replayInput(rp.Violation.Input, "replay")
+		flushCmp()
+		res.Rule = "replay of one recorded schedule / direct scenario"
+		res.Write(fl.Out)
+		return
+	}
+	// the direct oracles on the unmodified package: they need neither the instrumented copy nor the model
+	t0 := time.Now()
+	ran := directInChild("")
+	directRule := fmt.Sprintf(" Direct oracles on the UNMODIFIED package on the Go scheduler, in a process of their own (%.1f s): %s.", time.Since(t0).Seconds(), strings.Join(ran, "; "))
+	// the time budget of the controlled search starts now (a hanging scenario above has used up to ~35 s of watchdog time)
+	deadline = time.Now().Add(50 * time.Second)
+	if fl.Tier == "thorough" {
+		deadline = time.Now().Add(25 * time.Minute)
+	}
+
 	if !parv.Available {
-		// fall back: no controlled interleavings; uncontrolled stress + race detector on the unmodified package
-		res.Notes = append(res.Notes, "FALLBACK: the instrumented copy of par/work.go could not be produced ("+parv.Reason+"); schedules are not controlled in this run: only uncontrolled stress of the unmodified package under the race detector was performed, and the model was explored on its own")
+		// No controlled interleavings and no comparison with the model are possible: the theorems can no longer be tied
+		// to this source.  Everything that works on the unmodified package still runs; the run ends with a
+		// correspondence finding whatever the direct oracles found.
+		res.Notes = append(res.Notes, "the instrumented copy of par/work.go could not be produced ("+parv.Reason+"): schedules are not controlled in this run; the direct oracles and the race-detector stress of the unmodified package were run, and the model was explored on its own")
 		d := 20 * time.Second
 		if fl.Tier == "thorough" {
 			d = 180 * time.Second
@@ -2274,23 +2568,12 @@ func main() {
 				modelExplore(fmt.Sprintf("cacheexplore %s %s %s %d", c.progStr(), dots(c.vals), c.depStr(), 3000000), c.String())
 			}
 		}
-		res.Rule = "fallback: uncontrolled stress of the unmodified package under the race detector (instrumented copy unavailable)"
+		uninstrumentable()
+		res.Rule = "the instrumented copy is unavailable: no controlled schedules, no comparison with the model." + directRule + " Uncontrolled stress of the unmodified package under the race detector."
 		res.Write(fl.Out)
 		return
 	}
 
-	if fl.Replay != "" {
-		rp, err := common.LoadReplay(fl.Replay)
-		if err != nil {
-			fmt.Fprintln(os.Stderr, err)
-			os.Exit(2)
-		}
-		replayInput(rp.Violation.Input, "replay")
-		flushCmp()
-		res.Rule = "replay of one recorded schedule"
-		res.Write(fl.Out)
-		return
-	}
 	// corpus first: files with lines "cfg=<...>" "decisions=<...>" or "schedule=<...>"
 	if fl.Corpus != "" {
 		ents, _ := filepath.Glob(filepath.Join(fl.Corpus, "*"))
@@ -2315,6 +2598,7 @@ func main() {
 	} else {
 		mainCache()
 	}
+	res.Rule += directRule
 	if fl.Tier == "thorough" {
 		if prop == "C10" {
 			usersEvidence(40 * time.Second)
@@ -2324,4 +2608,80 @@ func main() {
 		raceEvidence(what, 3*time.Second, false)
 	}
 	res.Write(fl.Out)
+}
+
+// directInChild runs the direct oracles on the unmodified package (replay == "": all of them; else the finding stored
+// in that replay file) in a child process and merges what it found.  A panic on a goroutine started by the package
+// under test ends that process only; the scenario it was running is then reported as the failing input.
+func directInChild(replay string) (ran []string) {
+	tmp, err := os.CreateTemp(fl.Work, "direct-*.json")
+	if err != nil {
+		tmp, err = os.CreateTemp("", "direct-*.json")
+	}
+	if err != nil {
+		res.Notes = append(res.Notes, "direct oracles not run: "+err.Error())
+		return nil
+	}
+	tmp.Close()
+	defer os.Remove(tmp.Name())
+	os.Remove(tmp.Name())
+	args := []string{"-tier", fl.Tier, "-seed", strconv.FormatUint(fl.Seed, 10), "-out", tmp.Name(), "-work", fl.Work}
+	if replay != "" {
+		args = append(args, "-replay", replay)
+	}
+	cmd := exec.Command(os.Args[0], args...)
+	cmd.Env = append(os.Environ(), "VERIF_PAR_DIRECT="+tmp.Name())
+	var outb strings.Builder
+	cmd.Stdout, cmd.Stderr = &outb, &outb
+	runErr := cmd.Run()
+	outS := outb.String()
+	if b, err := os.ReadFile(tmp.Name()); err == nil {
+		var cr common.Result
+		if json.Unmarshal(b, &cr) == nil {
+			for _, v := range cr.Violations {
+				res.Violate(v)
+			}
+			for k, n := range cr.Distribution {
+				res.Distribution[k] += n
+			}
+			res.Evaluations += cr.Evaluations
+			return cr.Notes
+		}
+	}
+	// no result: the child died.  The last announced scenario is the failing input.
+	last := ""
+	for _, l := range strings.Split(outS, "\n") {
+		if strings.HasPrefix(l, "CASE ") {
+			last = strings.TrimPrefix(l, "CASE ")
+		}
+	}
+	msg := outS
+	if i := strings.Index(msg, "panic:"); i >= 0 {
+		msg = msg[i:]
+	} else if i := strings.Index(msg, "fatal error:"); i >= 0 {
+		msg = msg[i:]
+	}
+	if len(msg) > 1200 {
+		msg = msg[:1200]
+	}
+	what := "work"
+	if prop == "C10" {
+		what = "cache"
+	}
+	if last == "" {
+		res.Notes = append(res.Notes, fmt.Sprintf("the process of the direct oracles ended without a result before any scenario started (%v): %s", runErr, msg))
+		return nil
+	}
+	directViolate(what+"/no-panic", "the process running the unmodified package died during this scenario (a panic on a goroutine of the package, or a fatal runtime error):\n"+msg,
+		map[string]string{"cfg": last, "source": "direct", "text": "unmodified package, scenario " + last})
+	return []string{"(the run of the direct oracles ended early: see the work/no-panic finding)"}
+}
+
+// uninstrumentable records that the source could not be put on the controlled scheduler: the theorems are about a
+// model whose correspondence with this source cannot be checked any more.
+func uninstrumentable() {
+	res.Violate(common.Violation{Kind: "correspondence", Oracle: "instrumented-copy", Key: "instrumented-copy",
+		Input: map[string]string{"prop": prop, "file": "par/work.go", "reason": parv.Reason},
+		Detail: "par/work.go of the checked tree can no longer be tied to the model: harness/cmd/pargen could not produce the copy that runs on the cooperative scheduler (" + parv.Reason +
+			"), so no interleaving is controlled, no trace is compared with the extracted model and the transition cover is not taken; only the direct oracles on the unmodified package ran"})
 }
